@@ -5,6 +5,7 @@ import (
 	"fmt"
 	"io"
 	"strings"
+	"time"
 
 	"github.com/tsenart/vegeta/v12/internal/simrt"
 	simcommon "github.com/tsenart/vegeta/v12/internal/zzsim/common"
@@ -135,7 +136,9 @@ func runCodec(t *simrt.Tape, keep bool) simrt.Outcome {
 	odd := !cr && t.Prob(1, 10)
 	// and header names that the CSV layout cannot carry (a blank before the colon; known finding)
 	oddKeys := !cr && !odd && t.Prob(1, 10)
-	rs := genResults(r, n, simcommon.GenOpts{NoCR: !cr, OddHeaders: odd, OddKeys: oddKeys})
+	// timestamps of several zones in one stream, some of them within one second (one run in five)
+	zones := t.Prob(1, 5)
+	rs := genResults(r, n, simcommon.GenOpts{NoCR: !cr, OddHeaders: odd, OddKeys: oddKeys, Zones: zones})
 	big := -1
 	if n > 0 && t.Prob(1, 30) {
 		// one record beyond a megabyte (a large response body), without headers, somewhere in the sequence: buffers
@@ -199,6 +202,12 @@ func runDetect(t *simrt.Tape, keep bool) simrt.Outcome {
 		f := formats[t.Choose(3)]
 		n := 1 + t.Biased(60, 1, 4)
 		rs := genResults(r, n, simcommon.GenOpts{NoCR: true})
+		if len(rs) > 0 && t.Prob(1, 10) {
+			// a first record that differs from the rest in its very first bytes: an instant before 1970 (a results file
+			// from a machine whose clock was not set) makes a CSV stream begin with a minus sign
+			rs[0].Timestamp = time.Unix(-int64(1+t.Choose(1000000)), int64(t.Choose(1000000000))).UTC()
+			r.stats["probe.first-record-before-1970"]++
+		}
 		var data []byte
 		producer := "vegeta"
 		if f != "gob" && t.Prob(1, 3) {
